@@ -5,7 +5,7 @@ import warnings
 import subprocess
 import sys
 
-from harness import common, vmpool
+from harness import c01x, common, vmpool
 
 REQUIRED = ["flow_sound", "compat_table_sound", "prune_sound", "flow_sound_pytype_rules", "flow_sound_sem",
             "typeOf_admits", "sub_sound", "collapse_widens", "wider_is_sound"]
@@ -35,6 +35,19 @@ class Gen:
       return self.scalar()
     return ("T", [self.hashable(names, depth - 1) for _ in range(self.rng.randrange(0, 3))])
 
+  def distinct_hashables(self, names, n):
+    """n hashable literal expressions that are pairwise unequal under Python's == (so that a dict/set display
+    keeps every key: {0.0: x, False: y} has ONE entry at run time)."""
+    out, seen = [], []
+    for _ in range(n):
+      e = self.hashable(names, 1)
+      v = eval(expr_src(e, []))  # closed literal  # pylint: disable=eval-used
+      if any(v == w for w in seen):
+        continue
+      seen.append(v)
+      out.append(e)
+    return out
+
   def opaque(self):
     if self.nopaque >= self.max_opaque:
       return self.scalar()
@@ -56,10 +69,10 @@ class Gen:
     if r < 0.46:
       return ("T", [self.expr(names, depth - 1) for _ in range(self.rng.randrange(0, 4))])
     if r < 0.50:
-      return ("S", [self.hashable(names, 1) for _ in range(self.rng.randrange(1, 3))])
+      return ("S", self.distinct_hashables(names, self.rng.randrange(1, 3)) or [self.scalar()])
     if r < 0.56:
-      n = self.rng.randrange(0, 3)
-      return ("D", [self.hashable(names, 1) for _ in range(n)], [self.expr(names, depth - 1) for _ in range(n)])
+      ks = self.distinct_hashables(names, self.rng.randrange(0, 3))
+      return ("D", ks, [self.expr(names, depth - 1) for _ in ks])
     if r < 0.64:
       return ("?", self.cond(names, depth - 1), self.expr(names, depth - 1), self.expr(names, depth - 1))
     if r < 0.71:
@@ -344,13 +357,42 @@ def correspond(res, rng, tier):
       if semsub != "1":
         disagreements.append({"kind": "pytype-narrower-than-sound-lower-bound", "src": program_src(p), "name": name,
                               "pytype": types[name], "model_sem": ms, "model_rules": mt, "prog": p})
-  res.cov["evaluations"] = n
+  # ---- stream 2 (exploration beyond the theorem's fragment; the property's own oracle, applied directly) ----
+  n2 = 120 if tier == "quick" else 1500
+  xsrcs = [c01x.XGen(rng).gen() for _ in range(n2)]
+  xres = vmpool.analyze_many(xsrcs)
+  xs = {"programs": n2, "ran_to_completion": 0, "values_checked": 0, "annotations_outside_oracle": 0,
+        "unparsable_stub(C05)": 0, "pytype_exception(C15)": 0, "oracle_failures": 0}
+  for src, r in zip(xsrcs, xres):
+    if "exception" in r:
+      xs["pytype_exception(C15)"] += 1
+      continue
+    try:
+      c = c01x.check_program(src, r["pyi"])
+    except SyntaxError:
+      xs["unparsable_stub(C05)"] += 1
+      continue
+    if c is None:
+      continue
+    xs["ran_to_completion"] += 1
+    xs["values_checked"] += c[1]
+    xs["annotations_outside_oracle"] += c[2]
+    if c[0]:
+      xs["oracle_failures"] += 1
+      disagreements.append({"kind": "runtime-value-not-admitted(extended stream)", "xsrc": src, "not_admitted": c[0]})
+    if c[1] > 3:
+      nontrivial.add(src)
+  stats["extended_stream"] = xs
+  res.cov["evaluations"] = n + n2
   res.cov["distinct_nontrivial"] = len(nontrivial)
   res.cov["rule"] = ("seeded random F1 programs (assignments, nested if/else, displays, conditional/boolean expressions, "
                      "is None / isinstance tests, opaque conditions) analysed by the real io.generate_pyi; for every "
                      "module-level name the reported type must satisfy sub(inferName decSem, reported) in the Lean driver "
                      "(proved-sound sub); relation to the rules model (decTable) is recorded; non-trivial = more than one "
-                     "analysed path; distinct = distinct sources")
+                     "analysed path; distinct = distinct sources. Stream 2 (exploration, outside the theorem): programs with "
+                     "functions, lambdas, classes/multiple inheritance/methods/instance attributes, truthiness dunders, "
+                     "container mutation, comprehensions, subscripts, builtin calls, try/except are run under CPython and every "
+                     "module-level value and instance attribute must be admitted by the real stub")
   res.cov["distribution"] = stats
   res.add_samples([program_src(progs[0]), {"pyi": results[0].get("pyi", "")[:400]}])
   return disagreements
@@ -359,6 +401,33 @@ def correspond(res, rng, tier):
 def search(res, rng, disagreements, pfail):
   """S: CPython is the oracle.  Around the disagreeing programs (all outcomes of their opaque conditions) and a fresh
   random batch, find a program whose run-time value is not admitted by the type the real pytype infers."""
+  found = []
+  # extended-stream failures are already failing inputs: re-confirm and shrink by line removal
+  for d in disagreements:
+    if "xsrc" in d and len(found) < 2:
+      def xfails(lines):
+        src = "\n".join(lines) + "\n"
+        try:
+          compile(src, "<x>", "exec")
+        except SyntaxError:
+          return False
+        r = vmpool.analyze_many([src])[0]
+        if "exception" in r:
+          return False
+        try:
+          c = c01x.check_program(src, r["pyi"])
+        except SyntaxError:
+          return False
+        return bool(c and c[0])
+      lines = d["xsrc"].rstrip("\n").split("\n")
+      if xfails(lines):
+        small = common.ddmin(lines, xfails, budget_s=90.0)
+        src = "\n".join(small) + "\n"
+        r = vmpool.analyze_many([src])[0]
+        found.append({"source": src, "pytype_stub": r.get("pyi", ""),
+                      "not_admitted": c01x.check_program(src, r.get("pyi", ""))[0]})
+  if found:
+    return found
   cands = [d["prog"] for d in disagreements if "prog" in d]
   cands += [gen_program(rng) for _ in range(250)]
   # targeted micro-programs for every shape class (catches a wrong compatible_with row directly)
@@ -369,7 +438,6 @@ def search(res, rng, disagreements, pfail):
                              ("=", "c", ("&", wrap(("lit", lit)), ("lit", ("y", 1))))], "thresholds": []})
   for e in (("L", []), ("T", []), ("D", [], []), ("S", [("lit", ("i", 0))]), ("D", [("lit", ("i", 0))], [("lit", ("n",))])):
     cands.append({"body": [("if", e, [("=", "a", ("lit", ("i", 7)))], [("=", "a", ("lit", ("s", "a")))])], "thresholds": []})
-  found = []
   results = vmpool.analyze_many([program_src(p) for p in cands])
   for p, r in zip(cands, results):
     if "exception" in r:
@@ -412,7 +480,9 @@ def main():
                "type ⊒ model type, by the proved-sound `sub`)",
                "Generated/CompatTable.lean is regenerated from the real compare.compatible_with by translate/compat_table.py",
                "CPython semantics of the fragment = the Lean `evalC`/`execC` (hand-written)"],
-      assumptions=["conditions of the form len(_L) > k are undecidable for pytype (both branches kept)"])
+      assumptions=["conditions of the form len(_L) > k are undecidable for pytype (both branches kept)",
+                   "generated dict/set displays have pairwise unequal keys (the model keeps every display entry; "
+                   "CPython and pytype's constant dicts collapse equal keys such as 0.0 and False)"])
 
 
 if __name__ == "__main__":
